@@ -698,10 +698,12 @@ impl Parser {
                     Box::new(Schedule::Run(span, RunConfig { ruleset, until })),
                 ))]
             }
-            "run-schedule" => vec![Command::RunSchedule(Schedule::Sequence(
-                span,
-                map_fallible(tail, self, Self::parse_schedule)?,
-            ))],
+            // Normalised like every other schedule (see `parse_schedule`), so that the printed
+            // form of a parsed schedule parses back to the same tree.
+            "run-schedule" => vec![Command::RunSchedule(
+                Schedule::Sequence(span, map_fallible(tail, self, Self::parse_schedule)?)
+                    .flatten_sequences(),
+            )],
             "extract" => match tail {
                 [e] => vec![Command::Extract(
                     span.clone(),
@@ -869,7 +871,11 @@ impl Parser {
 
         let (head, tail, span) = sexp.expect_call("schedule")?;
 
-        Ok(match head.as_str() {
+        // `saturate`, `repeat` and `run-schedule` take any number of schedules and wrap them in
+        // an implicit `seq`; the printer shows that `seq` explicitly. Normalising the result
+        // (nested and single-element sequences unwrapped) makes print-then-parse the identity
+        // instead of adding one more `(seq ..)` layer per round.
+        let schedule = match head.as_str() {
             "saturate" => Schedule::Saturate(
                 span.clone(),
                 Box::new(Schedule::Sequence(
@@ -911,7 +917,8 @@ impl Parser {
                 Schedule::Run(span, RunConfig { ruleset, until })
             }
             _ => return error!(span, "expected either saturate, seq, repeat, or run"),
-        })
+        };
+        Ok(schedule.flatten_sequences())
     }
 
     pub fn parse_action(&mut self, sexp: &Sexp) -> Result<Vec<Action>, ParseError> {
